@@ -1023,7 +1023,7 @@ impl RoomAuthorisations {
                 id
                 mdate
                 room_id
-                admin (order_by(mdate desc)) {
+                admin (order_by(mdate asc)) {
                     mdate
                     verif_key
                     enabled
@@ -1032,18 +1032,18 @@ impl RoomAuthorisations {
                 authorisations(nullable(rights, users, user_admin)){
                     id
                     mdate
-                    rights(order_by(mdate desc)){
+                    rights(order_by(mdate asc)){
                         mdate
                         entity
                         mutate_self
                         mutate_all
                     }
-                    users(order_by(mdate desc)){
+                    users(order_by(mdate asc)){
                         mdate
                         verif_key
                         enabled
                     }
-                    user_admin (order_by(mdate desc)) {
+                    user_admin (order_by(mdate asc)) {
                         mdate
                         verif_key
                         enabled
